@@ -28,7 +28,7 @@ CLAIMS.update({
    ref="§5 C07"),
  "C10": dict(
    text="F4Jumble is shown to be a length-preserving bijection (inv(jumble(m)) = m and jumble(inv(m)) = m) for EVERY message of each instantiated length, with BLAKE2b abstracted by a deterministic mixing function (a Feistel network is invertible for any round function, so the solver decides the structure: split point, round order, G block index, tail xor); invalid lengths are rejected without touching the buffer. ZIP 316 container rules through the public API: a unified address of 0, 1 or 2 receivers is accepted iff typecodes are distinct, not P2PKH+P2SH, not only transparent (error kinds exact, items stored in ascending order); typecode mapping for all u32; per-item rules of Receiver/Fvk/Ivk for ALL u32 typecodes at the item lengths 20/43/64/65 (96/128 thorough); the container byte layer (hook): one Sapling item + 16 padding bytes is accepted iff the padding is exactly HRP||zeros.",
-   note="F4Jumble lengths: 48 (both directions) quick; 63 and 65 thorough; 128, 129 and 193 did not finish (experimental). In the padding harness F4Jumble^-1 is replaced by the identity (its bijectivity is the other harness) and format! by an empty string. BLAKE2b output values, the Bech32/Bech32m/Base58Check string layer (HRP <-> network mapping, checksums, case), ZcashAddress parsing/encoding, containers of more than 2 items and symbolic item framing are outside the claim (string code and symbolic-length Vecs are out of CBMC's reach here). Uses the verif hook zcash_address::verif_hooks.",
+   note="F4Jumble lengths: 48 quick (inv(jumble(m)) = m; the converse, implied on a finite domain, is thorough); 63 and 65 thorough; 128, 129 and 193 did not finish (experimental). In the padding harness F4Jumble^-1 is replaced by the identity (its bijectivity is the other harness) and format! by an empty string. BLAKE2b output values, the Bech32/Bech32m/Base58Check string layer (HRP <-> network mapping, checksums, case), ZcashAddress parsing/encoding, containers of more than 2 items and symbolic item framing are outside the claim (string code and symbolic-length Vecs are out of CBMC's reach here). Uses the verif hook zcash_address::verif_hooks.",
    ref="§5 C10"),
  "C12": dict(
    text="Narrow: memo bytes survive unchanged. MemoBytes::from_bytes for ALL inputs of length 512, 20 and 0 (stored array = input followed by zeros; as_slice = content without trailing zeros) and 513 (TooLong); encoding of the non-text Memo classes (Empty, Arbitrary, Future) reproduces the bytes. Two kernels of the URI grammar through a hook: parse::indexed_name equals a byte-level reference of paramname[.paramindex] (no leading zero, at most four digits, exact sub-slices) for ALL ASCII strings of length 3 and 7 (5 and 9 thorough); parse::has_duplicate_param is true exactly when an earlier parameter has the same kind, unknown parameters being compared by NAME only (2 earlier parameters, symbolic kinds/names/values).",
